@@ -70,6 +70,10 @@ NATIVE = {
                'family': 'ELF64/LE files of <= 490 bytes from kani/replay_src/stream_oracle.rs::enumerate: 0-3 section headers, 0-1 program header, numbering escapes, bad links/names/sizes, truncation, one injected I/O fault'},
     'c20n': {'enum': 'stream_oracle::enumerate', 'check': 'slice_oracle::check_c20_file(&c.file[..c.cut.min(c.file.len())])', 'n': _n('VERIF_STREAM_CASES', '150000'),
              'family': 'the same ELF64/LE files as the stream oracle, through the slice parser: by-name lookup against a manual scan, typed views against section_data, find_common_data against the targeted accessors'},
+    'hashn': {'enum': 'slice_oracle::enumerate_hash', 'check': 'slice_oracle::check_hash_tables(c)', 'n': _n('VERIF_HASH_CASES', '200000'),
+              'family': '.hash and .gnu.hash sections BUILT per the gABI / GNU format by an independent builder for 0-8 symbols (duplicates, non-UTF-8 names), 1-8 buckets, 1-4 bloom words, shifts 0-31, both classes and byte orders, optionally one corrupted byte; every present name must be found, every absent name give None, every answer be sound'},
+    'c05n': {'enum': 'stream_oracle::enumerate', 'check': 'slice_oracle::check_c05_file(&c.file[..c.cut.min(c.file.len())])', 'n': _n('VERIF_STREAM_CASES', '150000'),
+             'family': 'the ELF64/LE files of the stream oracle: header tables against an independent decode of e_shoff/e_shnum/e_phoff/e_phnum with the extended-numbering rules; open fails iff an entry size is wrong or a table does not fit'},
     'c13n': {'enum': 'slice_oracle::enumerate_symver', 'check': 'slice_oracle::check_symver(c)', 'n': _n('VERIF_SYMVER_CASES', '300000'),
              'family': 'version sections from kani/replay_src/slice_oracle.rs::enumerate_symver: 1-4 versym entries, 0-3 verneed records with one auxiliary record each, 0-3 verdef records, forward/zero/out-of-range links, hidden bits, unreadable strings; get_requirement/get_definition against a reference resolution'},
 }
@@ -281,6 +285,8 @@ PAIRING = [
     (r'^(C07|C08|C17)\.|^C05\.stream_|^C10\.open_stream|^(safety|proof):elf_stream::', lambda m: 'stream'),
     (r'^C20\.|^proof:elf_bytes::ElfBytes::(find_common_data|symbol_table|dynamic_symbol_table|dynamic|section_header_by_name)', lambda m: 'c20n'),
     (r'^C13\.(get_requirement|get_definition|names)\.', lambda m: 'c13n'),
+    (r'^C1[12]\.(find|new)\.', lambda m: 'hashn'),
+    (r'^C05\.(shdrs|phdrs|open)\.', lambda m: 'c05n'),
     (r'^C14\.(note|iter)\.', lambda m: ['c14_a4', 'c14_a8', 'c14_a3']),
     (r'^C03\.(section_range|segment_range|section_data|segment_data)\.', lambda m: 'c03_range'),
     (r'^C1[36]\.VerNeedIterator\.next\.', lambda m: 'c13_need'),
